@@ -87,12 +87,45 @@ def canon(value, _memo=None, fn_tags=None):
             tag = fn_tags.get(id(value))
             if tag is not None:
                 return ('f', tag)
-        func = getattr(value, 'func', None)
-        args = getattr(value, 'args', None)
-        if func is not None and args and isinstance(args[0], dict) and 'name' in args[0]:
-            return ('f', 'script:' + str(args[0]['name']))
+        name = script_function_name(value)
+        if name is not None:
+            return ('f', 'script:' + name)
         return ('f', getattr(value, '__name__', None) or type(value).__name__)
     return ('host', type(value).__name__, repr(value)[:80])
+
+
+def _is_function_model(x):
+    return isinstance(x, dict) and isinstance(x.get('name'), str) and isinstance(x.get('statements'), list)
+
+
+def script_function_name(value):
+    """The name of the script function a callable stands for, however the implementation represents script functions:
+    a functools.partial over the function model (the pinned tree), an object or bound method that holds the model in
+    an attribute, or a closure over it. None for any other callable."""
+    seen = []
+    args = getattr(value, 'args', None)
+    if isinstance(args, tuple):
+        seen.extend(args)
+    holder = getattr(value, '__self__', None)
+    for obj in (value, holder):
+        if obj is None or isinstance(obj, type(sys)):
+            continue
+        d = getattr(obj, '__dict__', None)
+        if isinstance(d, dict):
+            seen.extend(d.values())
+        for slot in getattr(type(obj), '__slots__', ()) or ():
+            if isinstance(slot, str) and hasattr(obj, slot):
+                seen.append(getattr(obj, slot))
+    for cell in getattr(value, '__closure__', None) or ():
+        try:
+            seen.append(cell.cell_contents)
+        except ValueError:
+            pass
+    seen.extend(getattr(value, '__defaults__', None) or ())
+    for x in seen:
+        if _is_function_model(x):
+            return x['name']
+    return None
 
 
 def canon_flat(value, fn_tags=None):
